@@ -4,7 +4,6 @@ import (
 	"fmt"
 	"go/token"
 	"go/types"
-	"sort"
 	"strings"
 
 	"golang.org/x/tools/go/ssa"
@@ -241,99 +240,253 @@ func checkC10(p *Program, r *Report) {
 			r.Unresolved("C10.flags", "wire.BloomUpdate* / txscript.PubKeyTy, MultiSigTy constants")
 		} else {
 			hname := FnName(helper)
-			// insertion calls in the helper
-			type ins struct {
-				call  *ssa.Call
-				flag  int64
-				class map[int64]bool
-			}
-			var inss []ins
-			for _, b := range helper.Blocks {
-				for _, in := range b.Instrs {
-					c, ok := in.(*ssa.Call)
-					if !ok {
-						continue
-					}
-					cal := c.Call.StaticCallee()
-					if cal == nil || !p.InRepo(cal) {
-						continue
-					}
-					isWriter := false
-					for _, g := range p.Reachable([]*ssa.Function{cal}) {
-						for _, bb := range g.Blocks {
-							for _, ii := range bb.Instrs {
-								if st, ok := ii.(*ssa.Store); ok {
-									if _, ok := st.Addr.(*ssa.IndexAddr); ok {
-										if bo, ok := st.Val.(*ssa.BinOp); ok && bo.Op == token.OR {
-											isWriter = true
-										}
+			// The update decision is a function of (update flag, script class): evaluate the helper — and any in-repo
+			// predicate it consults — over that finite domain and compare with BIP37.
+			isWriterCall := func(cal *ssa.Function) bool {
+				for _, g := range p.Reachable([]*ssa.Function{cal}) {
+					for _, bb := range g.Blocks {
+						for _, ii := range bb.Instrs {
+							if st, ok := ii.(*ssa.Store); ok {
+								if _, ok := st.Addr.(*ssa.IndexAddr); ok {
+									if bo, ok := st.Val.(*ssa.BinOp); ok && bo.Op == token.OR {
+										return true
 									}
 								}
 							}
 						}
 					}
-					if !isWriter {
-						continue
+				}
+				return false
+			}
+			type av struct {
+				kind string // "flag" | "class" | "const" | "bool" | ""
+				k    int64
+				b    bool
+			}
+			var evalFn func(fn *ssa.Function, args []av, flag, class int64, depth int) (inserted bool, ret av, why string)
+			evalFn = func(fn *ssa.Function, args []av, flag, class int64, depth int) (bool, av, string) {
+				if depth > 3 {
+					return false, av{}, "call nesting too deep"
+				}
+				vals := map[ssa.Value]av{}
+				for i, pa := range fn.Params {
+					if i < len(args) {
+						vals[pa] = args[i]
 					}
-					x := ins{call: c, flag: -1, class: map[int64]bool{}}
-					// flag constant from must-conditions at the block; class constants from the chain that leads here
-					for _, cd := range MustCondsAtBlock(helper, b) {
-						bo, truth, ok := condBinOp(cd)
-						if !ok || !(bo.Op == token.EQL && truth) {
-							continue
-						}
-						k, isK := constInt(bo.Y)
-						if !isK {
-							continue
-						}
-						if f, _, ok := fieldLoad(bo.X); ok && f.Name() == "Flags" {
-							x.flag = k
-						}
+				}
+				var get func(v ssa.Value) av
+				get = func(v ssa.Value) av {
+					if a, ok := vals[v]; ok {
+						return a
 					}
-					for _, pb := range helper.Blocks {
-						tag, k, match, _, ok := eqCompare(pb)
-						if !ok {
-							continue
+					switch x := v.(type) {
+					case *ssa.Const:
+						if bv, ok := constBool(x); ok {
+							return av{kind: "bool", b: bv}
 						}
-						if call, isCall := tag.(*ssa.Call); isCall && call.Call.StaticCallee() != nil && call.Call.StaticCallee().Name() == "GetScriptClass" {
-							if match == b || (len(match.Instrs) == 1 && match.Succs[0] == b) {
-								x.class[k] = true
+						if k, ok := constInt(x); ok {
+							return av{kind: "const", k: k}
+						}
+					case *ssa.UnOp:
+						if x.Op == token.MUL {
+							if f, _, ok := fieldLoad(x); ok && f.Name() == "Flags" {
+								return av{kind: "flag"}
+							}
+						}
+						if x.Op == token.NOT {
+							if a := get(x.X); a.kind == "bool" {
+								return av{kind: "bool", b: !a.b}
+							}
+						}
+					case *ssa.Convert:
+						return get(x.X)
+					case *ssa.ChangeType:
+						return get(x.X)
+					case *ssa.BinOp:
+						l, r2 := get(x.X), get(x.Y)
+						num := func(a av) (int64, bool) {
+							switch a.kind {
+							case "flag":
+								return flag, true
+							case "class":
+								return class, true
+							case "const":
+								return a.k, true
+							}
+							return 0, false
+						}
+						lv, ok1 := num(l)
+						rv, ok2 := num(r2)
+						if ok1 && ok2 {
+							switch x.Op {
+							case token.EQL:
+								return av{kind: "bool", b: lv == rv}
+							case token.NEQ:
+								return av{kind: "bool", b: lv != rv}
+							}
+						}
+						if l.kind == "bool" && r2.kind == "bool" {
+							switch x.Op {
+							case token.EQL:
+								return av{kind: "bool", b: l.b == r2.b}
+							case token.NEQ:
+								return av{kind: "bool", b: l.b != r2.b}
+							case token.AND:
+								return av{kind: "bool", b: l.b && r2.b}
+							case token.OR:
+								return av{kind: "bool", b: l.b || r2.b}
 							}
 						}
 					}
-					inss = append(inss, x)
+					return av{}
+				}
+				inserted := false
+				reachesInsert := func(from *ssa.BasicBlock) bool {
+					for blk := range reachableFrom(from, nil) {
+						for _, in := range blk.Instrs {
+							if c, ok := in.(*ssa.Call); ok {
+								if cal := c.Call.StaticCallee(); cal != nil && p.InRepo(cal) && len(cal.Blocks) > 0 && isWriterCall(cal) {
+									return true
+								}
+							}
+						}
+					}
+					return false
+				}
+				var prev *ssa.BasicBlock
+				cur := fn.Blocks[0]
+				seen := map[*ssa.BasicBlock]bool{}
+				for steps := 0; steps < 100; steps++ {
+					if seen[cur] {
+						return inserted, av{}, "loop in the update helper"
+					}
+					seen[cur] = true
+					for _, in := range cur.Instrs {
+						switch x := in.(type) {
+						case *ssa.Phi:
+							for i, pb := range cur.Preds {
+								if pb == prev {
+									vals[x] = get(x.Edges[i])
+								}
+							}
+						case *ssa.Call:
+							cal := x.Call.StaticCallee()
+							if cal != nil && cal.Name() == "GetScriptClass" {
+								vals[x] = av{kind: "class"}
+								continue
+							}
+							if cal == nil || !p.InRepo(cal) || len(cal.Blocks) == 0 {
+								continue
+							}
+							if isWriterCall(cal) {
+								inserted = true
+								continue
+							}
+							var as []av
+							for _, a := range x.Call.Args {
+								as = append(as, get(a))
+							}
+							ins2, rv, why := evalFn(cal, as, flag, class, depth+1)
+							if why != "" {
+								return inserted, av{}, why
+							}
+							inserted = inserted || ins2
+							vals[x] = rv
+						}
+					}
+					switch t := lastInstr(cur).(type) {
+					case *ssa.Return:
+						if len(t.Results) == 1 {
+							return inserted, get(t.Results[0]), ""
+						}
+						return inserted, av{}, ""
+					case *ssa.Jump:
+						prev, cur = cur, cur.Succs[0]
+					case *ssa.If:
+						c := get(t.Cond)
+						if c.kind != "bool" {
+							// a condition on something else (the script's length, say): follow the inserting side if
+							// there is one — "may insert" — so that only flag and class decide what is reported
+							mayA := reachesInsert(cur.Succs[0])
+							if mayA {
+								prev, cur = cur, cur.Succs[0]
+							} else {
+								prev, cur = cur, cur.Succs[1]
+							}
+							continue
+						}
+						if c.b {
+							prev, cur = cur, cur.Succs[0]
+						} else {
+							prev, cur = cur, cur.Succs[1]
+						}
+					default:
+						return inserted, av{}, "unexpected terminator in the update helper"
+					}
+				}
+				return inserted, av{}, "evaluation did not terminate"
+			}
+			none := int64(0)
+			if k, ok := pkgConst(p, "bloom", "github.com/gcash/bchd/wire", "BloomUpdateNone"); ok {
+				none = k
+			}
+			other := int64(1000)
+			otherClass := int64(-77)
+			classDomain := []int64{pubKeyTy, multiSigTy, otherClass}
+			for _, g := range pkgFuncs(p, "bloom") {
+				for _, gb := range g.Blocks {
+					for _, gi := range gb.Instrs {
+						bo, ok := gi.(*ssa.BinOp)
+						if !ok {
+							continue
+						}
+						for _, pr := range [][2]ssa.Value{{bo.X, bo.Y}, {bo.Y, bo.X}} {
+							if c, ok := pr[0].(*ssa.Call); ok && c.Call.StaticCallee() != nil && c.Call.StaticCallee().Name() == "GetScriptClass" {
+								if k, isK := constInt(pr[1]); isK {
+									classDomain = append(classDomain, k)
+								}
+							}
+							if ph, ok := pr[0].(*ssa.Phi); ok && ph.Comment == "class" {
+								if k, isK := constInt(pr[1]); isK {
+									classDomain = append(classDomain, k)
+								}
+							}
+						}
+					}
 				}
 			}
+			okAll, okP2, okElse := true, true, true
+			howAll, howP2, howElse := "inserts for every script class", "inserts exactly for PubKeyTy and MultiSigTy", "flag None and unknown flag values insert nothing"
+			for _, cls := range classDomain {
+				for _, fl := range []int64{all, p2pk, none, other} {
+					ins, _, why := evalFn(helper, nil, fl, cls, 0)
+					want := fl == all || (fl == p2pk && (cls == pubKeyTy || cls == multiSigTy))
+					msg := ""
+					if why != "" {
+						msg = "kind=undecided: " + why
+					} else if ins != want {
+						msg = fmt.Sprintf("for update flag %d and script class %d the helper inserts=%v, BIP37 says %v", fl, cls, ins, want)
+					}
+					if msg == "" {
+						continue
+					}
+					switch fl {
+					case all:
+						okAll, howAll = false, msg
+					case p2pk:
+						okP2, howP2 = false, msg
+					default:
+						okElse, howElse = false, msg
+					}
+				}
+			}
+			r.Add("C10.flags", hname, "BloomUpdateAll inserts the outpoint unconditionally", helper.Pos(), okAll, howAll)
+			r.Add("C10.flags", hname, "BloomUpdateP2PubkeyOnly inserts exactly for pay-to-pubkey and multisig outputs", helper.Pos(), okP2, howP2)
+			r.Add("C10.flags", hname, "no other update flag inserts", helper.Pos(), okElse, howElse)
 			_ = writerFn
-			sawAll, sawP2PK := false, false
-			for _, x := range inss {
-				var cls []int64
-				for k := range x.class {
-					cls = append(cls, k)
-				}
-				sort.Slice(cls, func(i, j int) bool { return cls[i] < cls[j] })
-				switch x.flag {
-				case all:
-					sawAll = true
-					r.Add("C10.flags", hname, "BloomUpdateAll inserts the outpoint unconditionally", x.call.Pos(), len(cls) == 0, fmt.Sprintf("script-class conditions on this arm: %v", cls))
-				case p2pk:
-					sawP2PK = true
-					want := []int64{pubKeyTy, multiSigTy}
-					sort.Slice(want, func(i, j int) bool { return want[i] < want[j] })
-					r.Add("C10.flags", hname, "BloomUpdateP2PubkeyOnly inserts exactly for pay-to-pubkey and multisig outputs", x.call.Pos(), fmt.Sprint(cls) == fmt.Sprint(want),
-						fmt.Sprintf("script classes %v, specified %v (PubKeyTy, MultiSigTy)", cls, want))
-				default:
-					r.Add("C10.flags", hname, "no other update flag inserts", x.call.Pos(), false, fmt.Sprintf("insertion under flag value %d", x.flag))
-				}
-			}
-			if !sawAll {
-				r.Add("C10.flags", hname, "BloomUpdateAll inserts the outpoint unconditionally", helper.Pos(), false, "no insertion on the BloomUpdateAll arm")
-			}
-			if !sawP2PK {
-				r.Add("C10.flags", hname, "BloomUpdateP2PubkeyOnly inserts exactly for pay-to-pubkey and multisig outputs", helper.Pos(), false, "no insertion on the P2PubkeyOnly arm")
-			}
 		}
 	}
+	r.Floor("C10.flags", 3)
 
 	// ---- C10.block
 	scan := p.Func("bloom", "GetMatchedIndices")
@@ -480,6 +633,5 @@ func checkC10(p *Program, r *Report) {
 	}
 	r.Floor("C10.scanall", 2)
 	r.Floor("C10.outpoint", 2)
-	r.Floor("C10.flags", 2)
 	r.Floor("C10.block", 5)
 }
